@@ -37,8 +37,9 @@ var checker = &vk.Checker[Case]{
 	ID: "C09",
 	Rule: "(s, from, to) with 0<=from<=to<=8*len(s): aligned/unaligned ends, empty aligned and empty unaligned ranges, unaligned from (floors to a byte), bytes 00/80/ff/7f boosted, lengths 0..20 (CmpUpto 0..40; thorough 0..64) on both sides of the 8-byte fast path for 3/4 of the sources, the others with a log-uniform length (8..600, 256..4200, 2048..9000; thorough ..9000, ..40000) and synthesized content (random, boosted, constant, tiny alphabet, 00/ff with a random tail); pairs correlated on purpose (same source with another end, one bit flipped before/at/after the shorter end, prefix relation, same start with ANY other end and one bit flipped in the common part - byte lengths differ by any amount -, a shared prefix of j bytes followed by an unrelated tail) or independent; " +
 		"plain a derived from b's source (truncated anywhere / within 9 bytes of the payload's end, extended, bit flipped below/at/beyond Len(b), flips only in the masked-off bits of the last byte, diverging: j common bytes then one byte changed up/down with a shorter than / as long as / longer than the payload, the empty key) or unrelated, shorter/equal/longer than b's payload. " +
-		"Argument shapes, every case: the string given to New also as a substring at an odd offset of a larger string (ff around it; same Len, Cmp = 0 with the plain one); the key a as exact copy / reused buffer with canaries, as nil, []byte{} and b[:0:0] when empty, and as sub-slice + substring at offsets 1..7 of larger buffers with 40 bytes of spare capacity holding ff, 00 or the bytes b continues with; the encodings as sub-slices of larger buffers (Cmp both ways, CmpUpto); nothing around an argument may be written. " +
-		"Size sweep (grid phase): payloads of 1..24 bytes and 2^k-1, 2^k, 2^k+1 and two seed-dependent sizes per octave up to 2^13+1 bytes (thorough 2^17+1), plus 32767..32769 and 65535..65537 bytes (reduced set): ends cut by 0,1,4,7 bits, random / all-00 / all-ff content with a mid-valued last byte; Cmp against the same bits from another placement, a flip of the last bit / the first masked bit / the first bit of the last 8-byte word / a random bit, ends 1, 2, 9, n/2 bytes shorter (prefix, or last common bit flipped) and 2 bytes longer; CmpUpto with keys of 0,1,2,3,7,8,9,n/2,n-9,n-8,n-2,n-1,n,n+1,n+3 bytes exact and with the last byte +1 / -1, flips at Len(b)-1 and Len(b). Maximum string: ranges up to 2^23 bits wide (thorough 2^28 and the whole string). Oracle: []bool bit strings, lexicographic with a proper prefix first; Len; Cmp antisymmetry; StrCmpUpto == CmpUpto from several call contexts (direct, func value, closure, fresh goroutine, closures entered right after the stack was overwritten with 00/ff) with the string's bytes unchanged. " +
+		"Argument shapes, every case: the string given to New also as a substring at an odd offset of a larger string (ff around it; same Len, Cmp = 0 with the plain one); the key a as exact copy / reused buffer with canaries, as nil, []byte{} and b[:0:0] when empty, and as sub-slice + substring at offsets 1..7 of larger buffers with 40 bytes of spare capacity holding ff, 00 or the bytes b continues with; the encodings as sub-slices of larger buffers (Cmp both ways, CmpUpto); nothing around an argument may be written; string arguments are real immutable strings (never views of a buffer that is written later), []byte arguments are cut from reused buffers. " +
+		"Results: an encoding New returned belongs to the caller - an identical second call's result is overwritten (every byte complemented, spare capacity filled), the first must read unchanged, a third identical call must give the same bit string (Len, Cmp = 0 both ways), and the first result is read again after each of the next cases (the last 8 are kept); on every case that goes through the checker (sources above 2 KiB: a quarter), on every 16th encoding of the directly evaluated grid, whose every 256th pair goes through the checker. " +
+		"Size sweep (grid phase): payloads of 1..24 bytes and 2^k-1, 2^k, 2^k+1 and two seed-dependent sizes per octave up to 2^13+1 bytes (thorough 2^17+1), plus 32767..32769 and 65535..65537 bytes (reduced set): ends cut by 0,1,4,7 bits, the payload 0, 1 or 3 bytes (above 256 bytes, a quarter of the sizes: n/2 or n bytes - from of every magnitude) into the source, random / all-00 / all-ff content with a mid-valued last byte; Cmp against the same bits from another placement, a flip of the last bit / the first masked bit / the first bit of the last 8-byte word / a random bit, ends 1, 2, 9, n/2 bytes shorter (prefix, or last common bit flipped) and 2 bytes longer; CmpUpto with keys of 0,1,2,3,7,8,9,n/2,n-9,n-8,n-2,n-1,n,n+1,n+3 bytes exact and with the last byte +1 / -1, flips at Len(b)-1 and Len(b). Maximum string: ranges up to 2^23 bits wide (thorough 2^28 and the whole string). Oracle: []bool bit strings, lexicographic with a proper prefix first; Len; Cmp antisymmetry; StrCmpUpto == CmpUpto from several call contexts (direct, func value, closure, fresh goroutine, closures entered right after the stack was overwritten with 00/ff) with the string's bytes unchanged. " +
 		"Grid: all strings of length <= 2 over {00,01,7f,80,ff} x from in {0,3,8,11} x all to: all pairs for Cmp, all plain strings of length <= 3 over the alphabet for CmpUpto. Non-trivial: the two bit strings share >= 1 leading bit and one ends unaligned; CmpUpto: b non-empty and (len(a) >= payload bytes - 1 or a shares its first byte with b). Grid pairs distinct by construction; rapid cases hashed when a source is longer than 2 bytes (3 for a).",
 	Check:    check,
 	Classify: classify,
@@ -58,6 +59,18 @@ func sign(x int) int {
 		return 1
 	}
 	return 0
+}
+
+// inGrid is set while the exhaustive grid runs the checks directly: there the result-ownership check
+// (checkOwned) runs on every 16th encoding (gridTick). A case that goes through check() always has it.
+var inGrid bool
+var gridTick uint64
+
+// ownSalt is set at the start of each check from the case's content (see encode).
+var ownSalt uint64
+
+func tailHash(b []byte) uint64 {
+	return vk.Hash64(b[max(0, len(b)-16):]) + uint64(len(b))*0x9e3779b97f4a7c15
 }
 
 func encode(r Range) ([]byte, *vk.Failure) {
@@ -81,6 +94,19 @@ func encode(r Range) ([]byte, *vk.Failure) {
 	}
 	if f := checkNewPlacement(r, e, want); f != nil {
 		return nil, f
+	}
+	// sources longer than 2 KiB: on a quarter of the cases (a pure function of the case: ownSalt)
+	owned := len(r.S) <= 2048 || vk.Mix(ownSalt+uint64(r.To))&3 == 0
+	if inGrid {
+		gridTick++
+		owned = gridTick&15 == 0
+	}
+	if owned {
+		src := string(r.S)
+		if f := checkOwned(func() string { return fmt.Sprintf("New(%s, %d, %d)", hexShort(r.S), r.From, r.To) },
+			func() []byte { return bitstr.New(src, r.From, r.To) }, e, want); f != nil {
+			return nil, f
+		}
 	}
 	return e, nil
 }
@@ -143,6 +169,7 @@ func checkCmpUpto(a []byte, x Range) *vk.Failure {
 
 // extras: the call-context and aliasing variants (in the big grid they run on a sample of the cases).
 func checkCmpUptoOpts(a []byte, x Range, extras bool) *vk.Failure {
+	ownSalt = tailHash(a) ^ tailHash(x.S)*31
 	e, f := encode(x)
 	if f != nil || e == nil {
 		return f
@@ -243,6 +270,7 @@ func checkCmpUptoOpts(a []byte, x Range, extras bool) *vk.Failure {
 }
 
 func checkCmp(x, y Range) *vk.Failure {
+	ownSalt = tailHash(x.S) ^ tailHash(y.S)*31 ^ uint64(x.To)<<32 ^ uint64(y.To)
 	ex, f := encode(x)
 	if f != nil || ex == nil {
 		return f
@@ -306,6 +334,12 @@ func checkMaxNew(from, to int32, cut int) *vk.Failure {
 	}
 	if u1 != 0 || u2 != 0 {
 		return vk.Failf("cmpupto", "CmpUpto/StrCmpUpto(the bytes of the range (+ff), %s = %s) = %d/%d, want 0", what, hexShort(e), u1, u2)
+	}
+	if len(e) <= 1<<16 {
+		// the encoding belongs to the caller here too (the aligned empty range at the end of the maximum string is one of them)
+		if f := checkOwned(func() string { return what }, func() []byte { return bitstr.New(s, from, to) }, e, want); f != nil {
+			return f
+		}
 	}
 	if j, bad := gen.MaxStringDamage(); bad {
 		return vk.Failf("cmpupto-mutates", "byte %d of the 2^28-byte source was modified", j)
@@ -675,14 +709,36 @@ func TestGrid(t *testing.T) {
 	}
 	var evals, nontriv int64
 	fail := func(c Case, f *vk.Failure) {
+		inGrid = false
 		if g := checker.Eval(c); g == nil {
 			vk.Infra("grid failure not reproduced by the per-case check")
 		}
 		t.Fatalf("VERIF-FAIL property=C09 kind=%s: %s", f.Kind, f.Msg)
 	}
+	// The grid runs the checks directly. Every 256th pair goes through the checker instead (checker.Run: the
+	// encodings that the pairs before it obtained from New and still hold are read again there - checker.Keep -, and
+	// a failure is stored with the 16 pairs before it as history).
+	var tick uint64
+	viaChecker := func(c Case) bool {
+		if tick&255 == 0 {
+			inGrid = false
+			checker.Run(t, c)
+			inGrid = true
+			return true
+		}
+		checker.Remember(c)
+		return false
+	}
+	inGrid = true
 	for i := range rs {
 		xb := bitsOf(rs[i])
 		for j := range rs {
+			if tick++; tick&255 == 0 || tick&255 >= 240 {
+				y := rs[j]
+				if viaChecker(Case{Op: "cmp", X: rs[i], Y: &y, Class: "grid"}) {
+					continue
+				}
+			}
 			evals++
 			if common(xb, bitsOf(rs[j])) >= 1 && (rs[i].To%8 != 0 || rs[j].To%8 != 0) {
 				nontriv++
@@ -693,6 +749,11 @@ func TestGrid(t *testing.T) {
 			}
 		}
 		for _, a := range plain {
+			if tick++; tick&255 == 0 || tick&255 >= 240 {
+				if viaChecker(Case{Op: "cmpupto", X: rs[i], A: a, Class: "grid"}) {
+					continue
+				}
+			}
 			evals++
 			if len(xb) > 0 && (len(a) >= (len(xb)+7)/8-1 || (len(a) > 0 && len(xb) >= 8 && a[0] == rs[i].S[rs[i].From/8])) {
 				nontriv++
@@ -702,6 +763,7 @@ func TestGrid(t *testing.T) {
 			}
 		}
 	}
+	inGrid = false
 	vk.CountConstructed(evals, nontriv, "grid")
 	vk.AddSample(map[string]any{"grid": fmt.Sprintf("%d encodings: all pairs for Cmp, x %d plain strings for CmpUpto/StrCmpUpto", len(rs), len(plain)),
 		"example": map[string]any{"x": "New(80ff, 3, 11)", "encoding": fmt.Sprintf("%x", bitstr.New("\x80\xff", 3, 11))}})
@@ -758,6 +820,9 @@ func sweepRange(t *testing.T, n, ri int, seed uint64, level int) {
 	h := vk.Mix(seed*1000003 + uint64(n)*31 + uint64(ri))
 	r := []int{0, 1, 4, 7}[(ri+int(h>>8&3))%4] // bits cut from the last payload byte
 	pad := []int{0, 1, 3}[(h>>16)%3]
+	if n > 256 && (h>>18)&3 == 0 {
+		pad = []int{n / 2, n}[(h>>20)&1] // from then takes values of every magnitude (each octave up to 8n bits), not only < 30
+	}
 	f := []int{0, 5}[(h>>24)%2]
 	var body []byte
 	content := "random"
